@@ -191,6 +191,10 @@ def main():
     du = DCm.Dist()
     for (n, S, td, pr) in ((2, 2, 'float32', 'float64'), (3, 1, 'int8', 'float32'), (2, 1, 'float64', 'float32')):
         KN.report_kernel(rep, KN.ttest_kernel(du, n, S, td, pr), 't-test kernel, %d traces x %d samples, %s->%s' % (n, S, td, pr), TT + '::TTestThreadAccumulator._update_core', timeout, native, dict(kind='update'))
+    from props import kernel_inv as KI
+    for td, pr in (('float32', 'float64'), ('int8', 'float32'), ('float64', 'float32')):      # the same kernel with EVERY extent symbolic (a batch of any number of traces)
+        try: KI.report(rep, KI.ttest_core(du, td, pr), 't-test kernel loop invariant, traces and samples symbolic, %s->%s' % (td, pr), TT + '::TTestThreadAccumulator._update_core', timeout, (1,), native, dict(kind='update'))
+        except core.Undecided as e: rep.undecided.append(dict(obligation='t-test kernel loop invariant, %s->%s' % (td, pr), reason='engine limit: %s' % e))
     rc, o, so, se = R.run_native('props.c09_native', ['bounded', str(seed), a.tier], timeout=2400)
     if o is None: rep.errors.append('native stand-in failed: %s %s' % (so[-400:], se[-900:]))
     else:
